@@ -93,6 +93,11 @@ func (c *c19Gen) module(i int, edges [][]int) string {
 	for _, s := range bottom {
 		sb.WriteString(s + "\n")
 	}
+	if g.Chance(1, 4) {
+		// the running program is a module too (__main__): importing it yields the one module object, without running it again
+		c.kinds["import-__main__"] = true
+		fmt.Fprintf(&sb, "import __main__\nimport __main__ as mm%d\nlg.log.append(('main-seen', __main__ is mm%d, __main__.shared))\n__main__.shared = __main__.shared + [%d]\n", i, i, i)
+	}
 	fmt.Fprintf(&sb, "lg.log.append('m%d:end')\n", i)
 	return sb.String()
 }
@@ -100,7 +105,7 @@ func (c *c19Gen) module(i int, edges [][]int) string {
 func (c *c19Gen) main() string {
 	g := c.g
 	var sb strings.Builder
-	sb.WriteString("import lg\nlg.log.append('main:start')\nfailed = False\n")
+	sb.WriteString("import lg\nlg.log.append('main:start')\nfailed = False\nshared = [0]\n")
 	// Fence: when the body of a generated module raised (a from-import inside a cycle), CPython removes
 	// the module from sys.modules while gpython keeps the half-initialised module cached. The property
 	// does not speak about re-importing a module whose body failed, so the main program stops importing
@@ -142,7 +147,18 @@ func (c *c19Gen) main() string {
 			c.multi = true
 		case 2:
 			c.kinds["missing-module"] = true
-			sb.WriteString(wrapx(g.Str("import nosuchmod", "from nosuchmod import a", "import nosuchmod as k", "from nosuchmod import *"), false))
+			stmt := g.Str("import nosuchmod", "from nosuchmod import a", "import nosuchmod as k", "from nosuchmod import *")
+			if g.Chance(1, 3) {
+				// ... while the search path holds no directory at all (empty, or only entries that are not strings): still ImportError,
+				// and modules already loaded are still found
+				c.kinds["missing-module-empty-path"] = true
+				sb.WriteString("import sys as _sy\n_saved = _sy.path[:]\n_sy.path[:] = " + g.Str("[]", "[None, 3]", "[None]") + "\n")
+				sb.WriteString(wrapx(stmt, false))
+				sb.WriteString(wrapx("import lg as lg2\n    lg.log.append(lg2 is lg)", false))
+				sb.WriteString("_sy.path[:] = _saved\ndel _sy, _saved\n")
+				continue
+			}
+			sb.WriteString(wrapx(stmt, false))
 		case 3:
 			c.kinds["missing-name"] = true
 			j := g.N(c.n)
@@ -166,7 +182,7 @@ func (c *c19Gen) main() string {
 			sb.WriteString(wrap(fmt.Sprintf("lg.log.append(_h%d)", j)))
 		}
 	}
-	sb.WriteString("lg.log.append('main:end')\n_res = lg.log\n_names = sorted([k for k in globals().keys() if k[:2] != '__' and k != 'lg'])\n")
+	sb.WriteString("lg.log.append(('main:end', shared))\n_res = lg.log\n_names = sorted([k for k in globals().keys() if k[:2] != '__' and k != 'lg'])\n")
 	return sb.String()
 }
 
